@@ -1,16 +1,26 @@
 import numpy as np
 
+def _dtype(array):
+    # np.can_cast no longer accepts python scalars (numpy >= 2), so
+    # always look at the dtype numpy would infer for the data
+    try:
+        return array.dtype
+    except AttributeError:
+        return np.asarray(array).dtype
+
 def inexact_type(array):
     try:
-        return (not np.can_cast(array, int) and
-                (np.can_cast(array, np.dtype("complex")) or
-                 np.can_cast(array, float)))
+        dtype = _dtype(array)
+        return (not np.can_cast(dtype, int) and
+                (np.can_cast(dtype, np.dtype("complex")) or
+                 np.can_cast(dtype, float)))
     except TypeError:
         return False
 
 def is_linalg_type(array):
     try:
-        return (np.can_cast(array, np.dtype("complex")) or
-                np.can_cast(array, float))
+        dtype = _dtype(array)
+        return (np.can_cast(dtype, np.dtype("complex")) or
+                np.can_cast(dtype, float))
     except TypeError:
         return False
